@@ -36,6 +36,7 @@ def run(chk):
     texts += deep_nesting([1, 2, 5, 50, 200] if quick else [1, 2, 3, 5, 20, 50, 100, 200, 300])
     texts += [c["src"] for c in corpus_cases("exec")]
     texts += gen_lex.keyword_texts()
+    texts += gen_lex.scale_texts()
     # statement-start tokens as the last token of the source, and every token kind right before EOF
     for w in gen_lex.WORDS:
         texts += [w, "say 1\n" + w, "say 1\n" + w + " (bye)", "x is 5\n" + w + "\n"]
